@@ -150,6 +150,12 @@ class Run:
         k, d = op["k"], op["d"]
         if k == "source":
             return from_source([CALL[op["f"]]], dims=["x"], coords={"x": [0]})
+        if k == "from":
+            return e[op["o"]]
+        if k == "joinz":
+            return cur.join(e[op["o"]], "z", match_coord_values=True)
+        if k == "reduce":
+            return cur.reduce(CALL[op["f"]], dim=d)
         if k == "map":
             return cur.map(CALL[op["f"]])
         if k == "addc":
